@@ -219,6 +219,7 @@ def c_setup_first(suspend: bool, when: int, kind: int, wait_ms: int, ticks_after
 
 class _SetupH(BaseRequestHandler):
     raise_on_setup = False
+    raise_kind = 0
     calls = None
 
     def __init__(self):
@@ -228,6 +229,13 @@ class _SetupH(BaseRequestHandler):
         self.setups.append((bytes(data_encoding), bytes(metadata_encoding), bytes(payload.data or b''),
                             bytes(payload.metadata or b'')))
         if type(self).raise_on_setup:
+            kind = type(self).raise_kind
+            if kind == 1:       # the application raises one of the library's own exception types (seed C16-4)
+                from rsocket.exceptions import RSocketProtocolError
+                raise RSocketProtocolError(ErrorCode.APPLICATION_ERROR, data='rejected by application')
+            if kind == 2:
+                from rsocket.exceptions import RSocketStreamIdInUse
+                raise RSocketStreamIdInUse(1)
             raise RuntimeError('rejected by application')
 
     async def request_response(self, p):
@@ -236,15 +244,16 @@ class _SetupH(BaseRequestHandler):
         return f
 
 
-def c_server_setup(first: int, resume: bool, lease: bool, has_pub: bool, raises: bool, major: int, minor: int,
+def c_server_setup(first: int, resume: bool, lease: bool, has_pub: bool, raises: bool, rkind: int, major: int, minor: int,
                    ka: int, ml: int, tok: bytes, denc: bytes, menc: bytes, data: bytes, meta: bytes) -> str:
     """
     Server side: an inbound SETUP (symbolic flags, version, periods, encodings, payload, token) is passed to
     on_setup exactly once iff acceptable; resume requested / lease requested without a lease publisher -> one
-    ERROR[UNSUPPORTED_SETUP] on stream 0; on_setup raising -> one ERROR[REJECTED_SETUP]; a RESUME frame -> one
+    ERROR[UNSUPPORTED_SETUP] on stream 0; on_setup raising (RuntimeError, or one of the library's own
+    RSocketProtocolError / RSocketStreamIdInUse carrying another code) -> one ERROR[REJECTED_SETUP]; a RESUME frame -> one
     ERROR[REJECTED_RESUME]; the connection keeps serving afterwards.
 
-    pre: 0 <= first <= 1
+    pre: 0 <= first <= 1 and 0 <= rkind <= 2
     pre: 0 <= major <= 0xFFFF and 0 <= minor <= 0xFFFF and 0 <= ka <= 0xFFFFFFFF and 0 <= ml <= 0xFFFFFFFF
     pre: len(tok) == 2 and len(denc) == ELEN and len(menc) == ELEN and len(data) == PLEN[0] and len(meta) == PLEN[1]
     post: _ in ALLOWED
@@ -258,6 +267,7 @@ def c_server_setup(first: int, resume: bool, lease: bool, has_pub: bool, raises:
 
     class H(_SetupH):
         raise_on_setup = concb(raises)
+        raise_kind = conc(rkind, 0, 2) if raise_on_setup else 0
 
     loop = new_loop()
     with loop:
